@@ -21,7 +21,7 @@ Definition py_int (v : pyval) : option Z :=
 
 Definition py_float (v : pyval) : option fl :=
   match v with
-  | PInt z => Some (FFin (z * million))
+  | PInt z => float_of_int z                              (* rounds beyond 2^53; OverflowError *)
   | PBool b => Some (FFin (if b then million else 0))
   | PFloat f => Some f
   | PStr s => parse_float_str s
